@@ -3,6 +3,7 @@ package eng
 
 import (
 	"context"
+	"fmt"
 	"time"
 
 	"go.opentelemetry.io/collector/pdata/pcommon"
@@ -17,12 +18,19 @@ import (
 // Eval evaluates text with a fresh engine over store.
 func Eval(store *mockstore.Store, text string, p model.Params) (lokiapi.QueryResponseData, error) {
 	e := logqlengine.NewEngine(store, logqlengine.Options{})
-	return e.Eval(context.Background(), text, logqlengine.EvalParams{
+	data, err := e.Eval(context.Background(), text, logqlengine.EvalParams{
 		Start: pcommon.Timestamp(p.Start),
 		End:   pcommon.Timestamp(p.End),
 		Step:  time.Duration(p.Step),
 		Limit: p.Limit,
 	})
+	if err == nil {
+		// The attributes of a record belong to the storage and are shared between records.
+		if what := store.Mutated(); what != "" {
+			return data, fmt.Errorf("evaluation wrote into the attributes handed out by the storage: %s", what)
+		}
+	}
+	return data, err
 }
 
 // CoverAll returns range-query parameters whose window covers every record.
